@@ -44,7 +44,7 @@ TEXT = {
         'text': 'Proof. Every function of fp/ops.rs that field arithmetic is built from carries a machine-checked contract against integers mod p '
                 '(add/sub/neg/modp for all three word sizes; single-word Montgomery mul for FP32/FP64 and split-word mul for FP128: r<p and r*R == x*y mod p for ALL operands; '
                 'pow (square-and-multiply loop invariant), inv, montgomery, residue against the residue-class view val(a) = a*R^-1 mod p: pow(x,e) denotes val(x)^e, residue(montgomery(x)) = x mod p), discharged by Verus on the '
-                'function text extracted from /repo on every run; the field layer (byte conversions, representation invariant) is discharged full-domain by Kani '
+                'function text extracted from /repo on every run; the field layer is discharged too: the make_field! bodies of the three fields (operators, inv, pow, integer conversions, equality, zero/one/half, the root table: root(0)=1, root(1)=-1, root(l)^2=root(l-1)) by Verus against the residue-class view under the invariant x.0 < p, and the byte conversions full-domain by Kani '
                 'on the real crate with mul replaced by its contract.  All carry/borrow paths are covered by the SMT proof, which random tests reach with probability 2^-32..2^-64.',
         'note': 'Trusted: std overflowing_add/sub semantics (assume_specification), From<bool>; Field255 limb arithmetic (fiat-crypto) is not verified; primality of the moduli is assumed where "inverse" is claimed. Extraction rewrites are listed per function in evidence/extract/.',
         'technique': 'function contracts (requires/ensures) on extracted real code, Verus/Z3; full-domain Kani harnesses with contract stubs',
